@@ -190,6 +190,8 @@ pub fn build_stream(c: &CutCase, out: &mut Outcome, sub: &str) -> Option<Built> 
             o.vmess_hdr_pad = c.hdr_pad as usize;
             o.ss22_pad = c.ss22_pad as usize;
             o.first_in_header = c.first_in_header;
+            // classic Shadowsocks: two cases in three spread the target address over the first two chunks
+            o.legacy_addr_split = if c.hdr_pad % 3 == 0 { 0 } else { 1 + (c.hdr_pad as usize + c.ss22_pad as usize) % 6 };
             match refside::ref_client_request(&c.cred, &c.addr, &chunks, &o, &mut d) {
                 Ok(frames) => Some(Built { frames, payload, client: None }),
                 Err(e) => {
